@@ -243,21 +243,25 @@ theorem classify_sub (cfg : Cfg) : ∀ (l : List (Path × Option Info)) (pl0 pl 
   | (p, some i) :: rest, pl0, pl, w, w', h => by
     unfold classify at h
     intro x hx
-    have step : ∀ pl1 : RollbackPlan, (∀ y ∈ pl1.all, y ∈ pl0.all ∨ y = p) →
-        classify cfg rest pl1 w = (w', .ok pl) →
+    have step : ∀ (pl1 : RollbackPlan) (w1 : World), (∀ y ∈ pl1.all, y ∈ pl0.all ∨ y = p) →
+        classify cfg rest pl1 w1 = (w', .ok pl) →
         x ∈ pl0.all ∨ x ∈ ((p, some i) :: rest).map Prod.fst := by
-      intro pl1 hpl1 hc
+      intro pl1 w1 hpl1 hc
       rcases classify_sub cfg rest pl1 pl _ w' hc x hx with h1 | h1
       · rcases hpl1 x h1 with h2 | h2
         · exact Or.inl h2
         · right; simp [h2]
       · right; simp only [List.map_cons, List.mem_cons]; exact Or.inr h1
     split at h
-    · exact step _ (fun y hy => Or.inl hy) h
+    · obtain ⟨f, w1, -, hc⟩ := M.bind_ok_inv h
+      refine step _ w1 (fun y hy => Or.inl ?_) hc
+      cases f
+      · exact hy
+      · exact hy
     · cases hk : i.kind <;> rw [hk] at h <;> simp only at h
-      · exact step _ (fun y hy => all_snoc_files pl0 p y hy) h
-      · exact step _ (fun y hy => all_snoc_dirs pl0 p y hy) h
-      · exact step _ (fun y hy => all_snoc_links pl0 p y hy) h
+      · exact step _ _ (fun y hy => all_snoc_files pl0 p y hy) h
+      · exact step _ _ (fun y hy => all_snoc_dirs pl0 p y hy) h
+      · exact step _ _ (fun y hy => all_snoc_links pl0 p y hy) h
 
 end BackupFS
 end BFS
@@ -267,6 +271,18 @@ namespace BackupFS
 
 theorem mem_sortBy {lt : Path → Path → Bool} {l : List Path} {x : Path} : x ∈ sortBy lt l ↔ x ∈ l :=
   (sortBy_perm lt l).mem_iff
+
+/-- the root entry of the first loop names the root (which is tracked) only -/
+theorem ensureRoot_names (cfg : Cfg) (p : Path) (i : Info) : Logs (ensureRoot cfg p i) (Names p) := by
+  unfold ensureRoot
+  apply Logs.bind (Logs.attempt (lexists_names cfg .base p)); intro r
+  cases r with
+  | error e => exact Logs.pure _ _
+  | ok o => cases o with
+    | some _ => exact Logs.pure _ _
+    | none =>
+      apply Logs.bind (Logs.attempt (primUnit_logs cfg .base _ (primCall_names cfg .base _ p rfl))); intro r2
+      cases r2 <;> exact Logs.pure _ _
 
 theorem classify_logs (cfg : Cfg) : ∀ (l : List (Path × Option Info)) (pl0 : RollbackPlan) (S : List Path),
     (∀ x ∈ l.map Prod.fst, x ∈ S) → Logs (classify cfg l pl0) (NamesIn S)
@@ -281,9 +297,11 @@ theorem classify_logs (cfg : Cfg) : ∀ (l : List (Path × Option Info)) (pl0 : 
     | ok o => cases o <;> exact classify_logs cfg rest _ S hrest
   | (p, some i) :: rest, pl0, S, hS => by
     unfold classify
+    have hp : p ∈ S := hS p (by simp)
     have hrest : ∀ x ∈ rest.map Prod.fst, x ∈ S := fun x hx => hS x (by simp [hx])
     split
-    · exact classify_logs cfg rest _ S hrest
+    · apply Logs.bind ((ensureRoot_names cfg p i).mono (fun e he => ⟨p, hp, he⟩)); intro f
+      exact classify_logs cfg rest _ S hrest
     · cases i.kind <;> exact classify_logs cfg rest _ S hrest
 
 theorem removeBaseAct_names (cfg : Cfg) (p : Path) : Logs (removeBaseAct cfg p) (Names p) := by
